@@ -126,8 +126,11 @@ proof!(t_pubsub_s2_p2_t3_polls5, 9, { run::<5>(2, 2, 3, false) });
 proof!(t_pubsub_faults_s2_p1_t2_polls4, 8, { run::<4>(2, 1, 2, true) });
 
 /// C16 / last clause of C01: after a symbolic prefix the server closes the registration
-/// channel and the subscribers accept data: the router must finish within two more
-/// polls, having handed over and flushed everything it had taken from a publisher.
+/// channel and the subscribers accept data. A closed channel never answers Pending, so
+/// it cannot wake the router, a publisher may stay silent for ever and the subscribers
+/// are not being waited for: the very next poll must therefore complete the router
+/// (a Pending return would leave it with no wake-up it can count on), having handed over
+/// and flushed everything it had taken from a publisher.
 fn shutdown<const P: usize>(sinks: usize, max_tokens: usize) {
     pubw().max_tokens = max_tokens;
     let (mut topic, mut tx) = Topic::<u8, MockErr>::pair();
@@ -148,20 +151,14 @@ fn shutdown<const P: usize>(sinks: usize, max_tokens: usize) {
     tx.close_channel();
     unsafe { shim_world::CALM = true };
     let taken = pubw().ny;
-    let mut finished = false;
-    let mut q = 0;
-    // each still-queued registration may cost one extra loop iteration, not an extra poll
-    while q < 2 && !finished {
-        let r = Pin::new(&mut topic).poll(&mut cx);
-        safety();
-        finished = r.is_ready();
-        q += 1;
-    }
-    assert!(finished, "router terminates after the registration channel closes and subscribers accept data");
+    let r = Pin::new(&mut topic).poll(&mut cx);
+    safety();
+    assert!(r.is_ready(), "router terminates once the registration channel is closed and subscribers accept data");
     let f = fan();
     assert!(f.nstarted >= taken, "everything taken from a publisher before the close was handed over");
     assert!(!f.unflushed(), "and flushed to every healthy subscriber");
-    kani::cover!(taken >= 1 && f.adopted[0], "shut down with traffic and a subscriber");
+    kani::cover!(P == 0 || (taken >= 1 && f.adopted[0]), "shut down with traffic and a subscriber");
+    kani::cover!(tx.delivered() == sinks + 1, "all registrations were processed before finishing");
     core::mem::forget((topic, tx));
 }
 proof!(t_pubsub_shutdown_p0, 8, { shutdown::<0>(1, 1) });
